@@ -120,6 +120,28 @@ def check_derived(gfa, model):
              ([r.pos[1][:-1], r.pos[2][:-1]] if (version == "gfa2" and r.rt == "E" and M.classify_edge(r)[0] == "C") else []))) if nm == sn)
         if len(s.containments) != ncont:
             raise Violation("containments", "len(containments) of %s: expected %d got %d" % (sn, ncont, len(s.containments)))
+    # which segments can be reached from which over dovetails: asked for every segment, by name and by instance,
+    # one question after the other in the same process (no answer may depend on what was asked before)
+    adj = {r_.pos[0]: set() for r_ in model.segments()}
+    for _r, a, b in dov:
+        if a[0] in adj and b[0] in adj:
+            adj[a[0]].add(b[0])
+            adj[b[0]].add(a[0])
+    for rnd in range(2):
+        for sn in sorted(adj):
+            want, todo = {sn}, [sn]
+            while todo:
+                for y in adj[todo.pop()]:
+                    if y not in want:
+                        want.add(y)
+                        todo.append(y)
+            try:
+                got = gfa.segment_connected_component(sn if rnd == 0 else gfa.segment(sn))
+            except Exception as e:
+                raise Violation("component-raised", "segment_connected_component(%s) raised %s: %s\n%s" % (sn, type(e).__name__, str(e)[:200], model.text()), type(e).__name__)
+            if sorted(x.name for x in got) != sorted(want):
+                raise Violation("component", "segment_connected_component(%s) (question %d of the sweep) = %s, by the dovetail collections %s\n%s" % (
+                    sn, rnd * len(adj) + sorted(adj).index(sn) + 1, sorted(x.name for x in got), sorted(want), model.text()))
     # per edge predicates and ends
     for r, a, b in dov:
         key = G.canon_rec(r)
